@@ -74,20 +74,21 @@ theorem takeWhile_to_slash : ∀ (a q : Bytes), a.contains cSlash = false → ke
 /-- the site key `name[:port][/path]` denotes the host `lower name` and the path `/path` -/
 theorem parseSiteKey_name_port (h p q : Bytes) (hh : plainHost h = true) (hp : plainHost p = true)
     (hs : (h ++ cColon :: p).contains cSlash = false) (hq : keyPathShape q = true)
-    (hns : hasPrefix (h ++ cColon :: p ++ q) httpScheme = false) :
+    (hns : hasPrefix (h ++ cColon :: p ++ q) httpScheme = false)
+    (hns2 : hasPrefix (h ++ cColon :: p ++ q) httpsScheme = false) :
     parseSiteKey (h ++ cColon :: p ++ q) = (lower h, q) := by
   unfold parseSiteKey dropScheme
-  rw [hns]
+  rw [hns, hns2]
   simp only [Bool.false_eq_true, if_false]
   have := takeWhile_to_slash (h ++ cColon :: p) q hs hq
   rw [this.1, this.2, addrHost_with_port h p hh hp]
 
 theorem parseSiteKey_name (h q : Bytes) (hh : plainHost h = true)
     (hs : h.contains cSlash = false) (hq : keyPathShape q = true)
-    (hns : hasPrefix (h ++ q) httpScheme = false) :
+    (hns : hasPrefix (h ++ q) httpScheme = false) (hns2 : hasPrefix (h ++ q) httpsScheme = false) :
     parseSiteKey (h ++ q) = (lower h, q) := by
   unfold parseSiteKey dropScheme
-  rw [hns]
+  rw [hns, hns2]
   simp only [Bool.false_eq_true, if_false]
   have := takeWhile_to_slash h q hs hq
   rw [this.1, this.2, addrHost_plain h hh]
